@@ -113,7 +113,8 @@ func short(id string) string {
 func TestC38(t *testing.T) {
 	r := vlib.Start(t, "C38", vlib.LevelExploration)
 	defer r.Finish()
-	r.SetRule("round = one isaac.ProposalMaker of the local node over a real TempPool (proposal pool + operation pool feeding getOperations through OperationHashes with limit 3..10, as launch/p_proposal_maker.go wires it; the pool holds facts signed several times, interleaved), 1..3 positions (point, previous block), 2..12 goroutines issuing 8..32 Make/PreferEmpty calls per position at once while another goroutine adds operations; lastBlockMap is absent, or one block below the positions so that matching, non-matching and unreachable positions occur; distinct = fingerprint of the observed order of call/return events per round (only rounds where calls overlapped); every answer for a position is compared with the first one and with ProposalByPoint afterwards")
+	r.SetRule("round = one isaac.ProposalMaker of the local node over a real TempPool (proposal pool + operation pool feeding getOperations through OperationHashes with limit 3..10, as launch/p_proposal_maker.go wires it; the pool holds facts signed several times, interleaved), 1..3 positions (point, previous block), 2..12 goroutines issuing 8..32 Make/PreferEmpty calls per position at once while another goroutine adds operations; lastBlockMap is absent, or one block below the positions so that matching, non-matching and unreachable positions occur; distinct = fingerprint of the observed order of call/return events per round (only rounds where calls overlapped); every answer for a position is compared with the first one and with ProposalByPoint afterwards. history = one ProposalMaker over the same kind of pool while the last block moves through H, H+1, ... (clean depth + 2 or more heights): per height the node proposes for the next height (round 0, sometimes further rounds / another previous block) and sometimes one or two heights ahead, sometimes a proposal of another node for a height ahead is stored, the operation pool changes; the pool's own cleanup step (hook H4b: clean proposals, clean ballots, the real depth rule) runs after every proposing step and after every saved block, sometimes concurrently with the requests; after each of these points every position already answered and still judged is asked again (a position expired by the depth rule is asked once more, at the height just below the judged ones) from 2..5 goroutines through Make and PreferEmpty; all answers ever returned for a position must be the same signed proposal and ProposalByPoint must return it, except that a position at or below (newest proposal height in the pool - clean depth) at the time of a cleanup is not judged any more; refusals ('too old') are not answers; distinct history = fingerprint of its steps with per-step numbers of asked / judged / judged-after-cleanup / refused / expired answers (only histories with judged answers after a cleanup)")
+	r.Assume("history phase: a position whose height is <= newest proposal height in the pool - clean depth (VerifCleanDepths) when a cleanup runs is expired by the documented depth rule; what the maker answers for it afterwards is counted, not judged")
 	r.Assume("no position lies more than one block below the last block map (Make answers 'too old' there by design)")
 	r.Assume("fault phase (beyond the property's quantifier, which has no faults): single ProposalByPoint / SetProposal / Proposal calls of the pool given to the maker fail once with a transient error, before or after reaching the real TempPool; an error answer of Make/PreferEmpty is accepted, all successful answers for one position must still be the same signed proposal and the real pool must agree")
 
@@ -127,10 +128,16 @@ func TestC38(t *testing.T) {
 	// value twice at each nesting level; every new proposal/operation costs
 	// 0.1-0.9 s of CPU, so rounds are few.
 	rounds := r.N(48, 480)
-	r.WithWatchdog(time.Duration(r.N(20, 120))*time.Minute, "C38 workload", func() {
-		vlib.Parallel(rounds, workers, func(ri int) {
+	histories := r.N(2, 16)
+	r.WithWatchdog(time.Duration(r.N(30, 180))*time.Minute, "C38 workload", func() {
+		// NOTE the histories are the longest cases: first
+		vlib.Parallel(histories+rounds, workers, func(i int) {
 			sl := <-slots
-			round(r, g, sl, ri)
+			if i < histories {
+				history(r, g, sl, i)
+			} else {
+				round(r, g, sl, i-histories)
+			}
 			slots <- sl
 		})
 		sl := <-slots
@@ -139,6 +146,9 @@ func TestC38(t *testing.T) {
 	})
 	if r.Counter("proposals_returned") == 0 || r.Counter("rounds_with_overlapping_calls") == 0 {
 		r.Inconclusive("no proposal was returned or no calls overlapped")
+	}
+	if r.Counter("history_answers_judged_after_pool_cleanup") == 0 || r.Counter("history_cleanups_which_removed_proposals") == 0 {
+		r.Inconclusive("no history in which a position was answered again after a pool cleanup that removed proposals")
 	}
 	if r.Counter("proposals_with_operations") == 0 {
 		r.Inconclusive("no proposal with operations was observed")
